@@ -99,10 +99,11 @@ func distToPolylines(p hc.P2, pls [][]hc.P2) float64 {
 
 func finite(f float64) bool { return !math.IsNaN(f) && !math.IsInf(f, 0) }
 
-// lengthTol is the accuracy the repaired code achieves, per segment kind, measured on 24,000 generated
-// paths after 0b071bc / 8606e8f (relative to the segment's arc length): straight segments exact (1e-9),
-// quadratic closed form <= 1e-6, elliptical arcs <= 0.25% (budget 0.4%), cubics < 1% (budget 1%, the
-// bound the property states; 5 of 8,057 paths above 0.5%). A path may deviate by the sum of the budgets.
+// lengthTol is the accuracy the repaired code achieves, per segment kind (relative to the segment's arc
+// length; measured after 0b071bc / 0869084 on 24,000 generated paths here and on 39,000 paths of curve
+// families incl. cusps by the investigation in corpus/C09/inv-fix-cubic-length-quarters.md): straight
+// segments exact (1e-9), quadratic closed form <= 1e-6, elliptical arcs <= 0.25% (budget 0.4%), cubics
+// <= 0.7% (at a cusp; budget 0.7%). A path may deviate by the sum of the budgets.
 func lengthTol(segs []hc.Seg) float64 {
 	tol := 1e-9
 	for _, s := range segs {
@@ -113,12 +114,25 @@ func lengthTol(segs []hc.Seg) float64 {
 		case 'A':
 			tol += 4e-3 * l
 		case 'C':
-			tol += 1e-2 * l
+			tol += 7e-3 * l
 		default:
 			tol += 1e-9 * l
 		}
 	}
 	return tol
+}
+
+// cutBudgetBase: the length the error of a cut in segment si is measured against: the segment itself when
+// it is curved (inverse arc length, stop at 0.1% of the segment) plus the curved segments before it (their
+// 16-panel lengths position the segment)
+func cutBudgetBase(segs []hc.Seg, segTrue []float64, si int) float64 {
+	b := 1e-9
+	for i := 0; i <= si; i++ {
+		if k := segs[i].Kind; k == 'Q' || k == 'C' || k == 'A' {
+			b += segTrue[i]
+		}
+	}
+	return b
 }
 
 // errBucket names the decade of a relative error (for the accuracy histograms in the evidence)
@@ -130,6 +144,8 @@ func errBucket(e float64) string {
 		return "<=1e-4"
 	case e <= 1e-3:
 		return "<=0.1%"
+	case e <= 1.5e-3:
+		return "<=0.15%"
 	case e <= 2.5e-3:
 		return "<=0.25%"
 	case e <= 5e-3:
@@ -629,7 +645,7 @@ func oracleLength(c *hc.Ctx) {
 			if l > t {
 				dir = "long"
 			}
-			c.Fail("length-inaccurate:"+string(wk)+causes([]hc.Seg{ws}), fmt.Sprintf("Length() = %.6g is %.2f%% %s of the arc length %.6g of %q (allowed %.2f%%: straight 1e-9, Q 1e-6, A 0.4%%, C 1%% of each segment)", l, 100*math.Abs(l-t)/t, dir, t, p.String(), 100*lengthTol(segs)/t), replay)
+			c.Fail("length-inaccurate:"+string(wk)+causes([]hc.Seg{ws}), fmt.Sprintf("Length() = %.6g is %.2f%% %s of the arc length %.6g of %q (allowed %.2f%%: straight 1e-9, Q 1e-6, A 0.4%%, C 0.7%% of each segment)", l, 100*math.Abs(l-t)/t, dir, t, p.String(), 100*lengthTol(segs)/t), replay)
 			continue
 		}
 		c.Count("length within-tolerance")
@@ -658,14 +674,23 @@ func firstLine(s string) string {
 // e51fcfc, 221f70c), replayed on every run as regression assertions: a recurrence is a VIOLATION.
 func suspects(c *hc.Ctx) {
 	{
-		p := canvas.MustParseSVGPath("M7.75 2.25A16.25 1.702 59.99999999999999 1 0 4 -4.246")
-		ts := []float64{2.8704965091161636, 2.973014241584598}
-		segs, _ := drawSegs(p.Data())
-		c.Evals++
-		if msg := hc.Try(func() { p.SplitAt(append([]float64{}, ts...)...) }); msg != "" {
-			c.Fail("panic:SplitAt:"+firstLine(msg)+causes(segs), "SplitAt panicked: "+firstLine(msg), map[string]any{"path": p.String(), "ts": ts})
-		} else {
-			c.Count("regression input ok:splitat-arc-close-cuts")
+		// (the second input still needs the monotone clamp after 56b2370: both estimates are within 0.1% and
+		// are kept unpolished, the second angle 0.004 rad before the first)
+		for _, in := range []struct {
+			path string
+			ts   []float64
+		}{
+			{"M7.75 2.25A16.25 1.702 59.99999999999999 1 0 4 -4.246", []float64{2.8704965091161636, 2.973014241584598}},
+			{"M0 0A28.564729209941117 1.3101651788599762 150.00000000000003 1 1 -7.3144397975506035 3.5667055036408506", []float64{12.973838480874397, 12.983362131723563}},
+		} {
+			p := canvas.MustParseSVGPath(in.path)
+			segs, _ := drawSegs(p.Data())
+			c.Evals++
+			if msg := hc.Try(func() { p.SplitAt(append([]float64{}, in.ts...)...) }); msg != "" {
+				c.Fail("panic:SplitAt:"+firstLine(msg)+causes(segs), "SplitAt panicked: "+firstLine(msg), map[string]any{"path": p.String(), "ts": in.ts})
+			} else {
+				c.Count("regression input ok:splitat-arc-close-cuts")
+			}
 		}
 	}
 	{
@@ -692,21 +717,76 @@ func suspects(c *hc.Ctx) {
 			c.Count("regression input ok:" + in.kind)
 		}
 	}
-	// deac3eb: two close cuts on a hairpin cubic must not come out in the wrong order
+	// 0869084: Length of a cubic with a near-cusp
 	{
-		p := canvas.MustParseSVGPath("M1 0.29C-10.697 7 5 -2 -7.25 10C-9.076 -2.25 3 -3.68 8 -4C2 17.395 14.532 0 -3.529 -18.361C3 -17.809 6 -0.694 15.054 13.571")
-		ts := []float64{71.35346429181375, 71.06690681359908, 39.719843451538175, 39.59148072963598}
+		p := canvas.MustParseSVGPath("M-6 -3C-12.372 1.008 14.15 -15.212 1.25 -8.705")
+		segs, _ := drawSegs(p.Data())
+		c.Evals++
+		if l, t := p.Length(), trueLen(segs); !(math.Abs(l-t) <= lengthTol(segs)) {
+			c.Fail("length-inaccurate:C+sharp-bezier+near-cusp", fmt.Sprintf("Length() = %v, arc length %.6g of %q", l, t, p.String()), map[string]any{"path": p.String()})
+		} else {
+			c.Count("regression input ok:length-near-cusp-cubic")
+		}
+	}
+	// 56b2370: cut positions on a hairpin cubic and on an eccentric arc
+	for _, in := range []struct {
+		path, kind string
+		ts         []float64
+	}{
+		{"M7.5 9.277C10.254 -14.364 17.063 6.574 -2.666 3", "splitat-cut-position+sharp-bezier", []float64{2.8904549689859365, 23.174091721365194, 9.595601884370454, 20.16853771082224}},
+		{"M-2 -8.977A6.081 3.5 14.999999999999982 1 0 -2 -15.247A39.058519910829254 4.339835545647695 105.00000000000004 1 1 5.81 -10.872", "splitat-cut-position+wide-elliptic-arc", []float64{14.728990764636382, 54.90020756769627, 81.5863567663037}},
+	} {
+		p := canvas.MustParseSVGPath(in.path)
+		segs, _ := drawSegs(p.Data())
+		segTrue := make([]float64, len(segs))
+		for i, sg := range segs {
+			segTrue[i] = segTrueLen(sg)
+		}
+		sorted := append([]float64{}, in.ts...)
+		sort.Float64s(sorted)
+		c.Evals++
+		bad := ""
+		msg := hc.Try(func() {
+			qs := p.SplitAt(append([]float64{}, in.ts...)...)
+			cum := 0.0
+			for k := 0; k < len(sorted) && k < len(qs); k++ {
+				sg, _ := drawSegs(qs[k].Data())
+				cum += trueLen(sg)
+				if e := math.Abs(cum - sorted[k]); e > 0.0015*cutBudgetBase(segs, segTrue, len(segs)-1) {
+					bad = fmt.Sprintf("cut %d requested at %.6g lies at arc length %.6g", k, sorted[k], cum)
+				}
+			}
+			if len(qs) != len(sorted)+1 {
+				bad = fmt.Sprintf("%d pieces for %d cuts", len(qs), len(sorted))
+			}
+		})
+		if msg != "" || bad != "" {
+			c.Fail(in.kind, bad+msg, map[string]any{"path": p.String(), "ts": in.ts})
+		} else {
+			c.Count("regression input ok:" + in.kind)
+		}
+	}
+	// deac3eb: two close cuts on a cubic must not come out in the wrong order (the second input still needs
+	// the clamp after 56b2370: both estimates are within 0.1% and kept unpolished, t = 0.85095 then 0.85000)
+	for _, in := range []struct {
+		path string
+		ts   []float64
+	}{
+		{"M1 0.29C-10.697 7 5 -2 -7.25 10C-9.076 -2.25 3 -3.68 8 -4C2 17.395 14.532 0 -3.529 -18.361C3 -17.809 6 -0.694 15.054 13.571", []float64{71.35346429181375, 71.06690681359908, 39.719843451538175, 39.59148072963598}},
+		{"M-17.742 -11.168C14.702 -5.93 6.916 10.39 11.37 -11.253", []float64{32.936274735372166, 32.943661709801034}},
+	} {
+		p := canvas.MustParseSVGPath(in.path)
 		segs, _ := drawSegs(p.Data())
 		c.Evals++
 		tot := 0.0
 		msg := hc.Try(func() {
-			for _, q := range p.SplitAt(append([]float64{}, ts...)...) {
+			for _, q := range p.SplitAt(append([]float64{}, in.ts...)...) {
 				sg, _ := drawSegs(q.Data())
 				tot += trueLen(sg)
 			}
 		})
-		if T := trueLen(segs); msg != "" || tot > T*(1+1e-3) {
-			c.Fail("splitat-overlap+sharp-bezier", fmt.Sprintf("the pieces overlap: their total arc length is %.6g, the path's %.6g %s", tot, T, msg), map[string]any{"path": p.String(), "ts": ts})
+		if T := trueLen(segs); msg != "" || tot > T*(1+1e-4) {
+			c.Fail("splitat-overlap+sharp-bezier", fmt.Sprintf("the pieces overlap: their total arc length is %.6g, the path's %.6g %s", tot, T, msg), map[string]any{"path": p.String(), "ts": in.ts})
 		} else {
 			c.Count("regression input ok:splitat-overlap")
 		}
@@ -977,12 +1057,11 @@ func oracleSplitAt(c *hc.Ctx) {
 		if lenOK {
 			c.Count("splitat length-sum rel-error " + errBucket(math.Abs(sumLen-L)/L))
 		}
-		if !lenOK || math.Abs(sumLen-L) > math.Min(0.01*L, 2*lengthTol(segs)) {
+		if !lenOK || math.Abs(sumLen-L) > math.Min(0.005*L, 2*lengthTol(segs)) {
 			c.Fail("splitat-length-sum"+cs+multi, fmt.Sprintf("piece lengths sum to %.6g, Length() = %.6g (arc length %.6g)", sumLen, L, T), replay)
 		}
 
-		// cut k lies at arc length ts[k]: tolerance 1% of the arc length up to the end of the segment
-		// that contains the cut (Length is allowed 1%), measured on the fine flattening
+		// cut k lies at arc length ts[k], measured on the fine flattening
 		cum := 0.0
 		worst := ""
 		for k := 0; k < m; k++ {
@@ -998,14 +1077,20 @@ func oracleSplitAt(c *hc.Ctx) {
 			if si == len(segs) {
 				si--
 			}
-			if e := math.Abs(cum - sorted[k]); e > 0.01*pre && worst == "" {
-				worst = fmt.Sprintf("cut %d requested at %.6g lies at arc length %.6g (off by %.2f%% of the %.6g up to the end of its %c segment)", k, sorted[k], cum, 100*e/pre, pre, segs[si].Kind)
+			if e := math.Abs(cum - sorted[k]); true {
+				c.Count("splitat cut rel-error/prefix " + errBucket(e/pre))
+				c.Count("splitat cut rel-error/budget " + errBucket(e/cutBudgetBase(segs, segTrue, si)))
+			}
+			// measured after 56b2370 (68,000 cuts here, 39,000 paths in corpus/C09/inv-fix-splitat-polish.md):
+			// every cut within 0.12% of the curved length up to the end of its segment; budget 0.15%
+			if e := math.Abs(cum - sorted[k]); e > 0.0015*cutBudgetBase(segs, segTrue, si)+1e-9*pre && worst == "" {
+				worst = fmt.Sprintf("cut %d requested at %.6g lies at arc length %.6g (off by %.3f%% of the curved length %.6g up to the end of its %c segment; allowed 0.15%%)", k, sorted[k], cum, 100*e/cutBudgetBase(segs, segTrue, si), cutBudgetBase(segs, segTrue, si), segs[si].Kind)
 				// the position depends on the lengths of all segments up to and including this one
 				c.Fail("splitat-cut-position"+causes(segs[:si+1])+multi, worst, replay)
 			}
 		}
 		if worst == "" {
-			c.Count("splitat cuts-within-1%")
+			c.Count("splitat cuts-within-0.15%")
 		}
 		if it == 0 {
 			c.Sample(fmt.Sprintf("SplitAt %q at %v -> %v", p.String(), sorted, out))
